@@ -346,4 +346,127 @@ theorem openWrite_t (cfg : Cfg) (d : DST) (args : Args) (ts : Nat) (saved : Bool
       generalize (if d.feat.tsBegin.isSome = true then s2.ev (.tsWrite "begin" ts) else s2) = s3 at h3
       exact (h3.evq (.opened s3.c.at_) (fun _ _ h => by cases h)).upd rfl rfl rfl
 
+
+theorem openGuarded_t (cfg : Cfg) (d : DST) (args : Args) (ts : Nat) (s : St) :
+    (TInv s → (d.feat.tsBegin.isSome → lastTs s.log ≤ ts ∧ ts ≤ s.p.clock) →
+      TInv (openGuarded cfg d args ts s)) ∧
+    (TInv2 s → (d.feat.tsBegin.isSome → lastTs s.log ≤ ts ∧ ts ≤ s.c.curLastEventTs) →
+      TInv2 (openGuarded cfg d args ts s)) := by
+  unfold openGuarded
+  simp only
+  constructor
+  · intro hi hts
+    split
+    · exact hi.upd rfl rfl rfl
+    · split
+      · exact hi.upd rfl rfl rfl
+      · exact (openWrite_t cfg d args ts _ (s.setFlag true)).1 (hi.upd rfl rfl rfl) hts
+  · intro hi hts
+    split
+    · exact hi.upd rfl rfl rfl
+    · split
+      · exact hi.upd rfl rfl rfl
+      · exact (openWrite_t cfg d args ts _ (s.setFlag true)).2 (hi.upd rfl rfl rfl) hts
+
+theorem openPacket_t (cfg : Cfg) (d : DST) (args : Args) (s : St) (hwf : ClockWF d)
+    (hw : (openPacket cfg d args s).p.clock < clkW d) :
+    (s.c.useCurLastEventTs = false → TInv s → TInv (openPacket cfg d args s)) ∧
+    (s.c.useCurLastEventTs = true → TInv2 s → TInv2 (openPacket cfg d args s)) := by
+  unfold openPacket at hw ⊢
+  split
+  · exact ⟨fun _ h => h, fun _ h => h⟩
+  · rename_i hh
+    simp only [hh, if_false] at hw
+    have hb : (preambleTs d d.feat.tsBegin s).2.p.clock < clkW d :=
+      Nat.lt_of_le_of_lt (openGuarded_tf cfg d args _ _).clock hw
+    obtain ⟨pa, pb⟩ := preambleTs_t d d.feat.tsBegin s (fun h => (hwf h).1) hb
+    constructor
+    · intro hu hi
+      obtain ⟨h1, h2⟩ := pa hu hi
+      exact (openGuarded_t cfg d args _ _).1 h1 h2
+    · intro hu hi
+      obtain ⟨h1, h2⟩ := pb hu hi
+      exact (openGuarded_t cfg d args _ _).2 h1 h2
+
+theorem closeFinish_t (d : DST) (ts : Nat) (saved : Bool) (s : St) :
+    (TInv s → (d.feat.tsEnd.isSome → lastTs s.log ≤ ts ∧ ts ≤ s.p.clock) → TInv (closeFinish d ts saved s)) ∧
+    (TInv2 s → (d.feat.tsEnd.isSome → lastTs s.log ≤ ts ∧ ts ≤ s.c.curLastEventTs) →
+      TInv2 (closeFinish d ts saved s)) := by
+  unfold closeFinish
+  constructor
+  · intro hi hts
+    split
+    · exact hi
+    · simp only
+      have h3 : TInv (if d.feat.tsEnd.isSome = true then s.ev (.tsWrite "end" ts) else s) := by
+        split
+        · rename_i hf; exact hi.tsw _ _ (hts hf).1 (hts hf).2
+        · exact hi
+      generalize (if d.feat.tsEnd.isSome = true then s.ev (.tsWrite "end" ts) else s) = s3 at h3
+      have h4 := h3.evq (.closed s3.c.contentSize s3.c.sequenceNumber s3.c.eventsDiscarded) (fun _ _ h => by cases h)
+      split <;> exact h4.upd rfl rfl rfl
+  · intro hi hts
+    split
+    · exact hi
+    · simp only
+      have h3 : TInv2 (if d.feat.tsEnd.isSome = true then s.ev (.tsWrite "end" ts) else s) := by
+        split
+        · rename_i hf; exact hi.tsw _ _ (hts hf).1 (hts hf).2
+        · exact hi
+      generalize (if d.feat.tsEnd.isSome = true then s.ev (.tsWrite "end" ts) else s) = s3 at h3
+      have h4 := h3.evq (.closed s3.c.contentSize s3.c.sequenceNumber s3.c.eventsDiscarded) (fun _ _ h => by cases h)
+      split <;> exact h4.upd rfl rfl rfl
+
+theorem closeBacks_tq (cfg : Cfg) (d : DST) (ts : Nat) (s : St) : TQ s (closeBacks cfg d ts s) :=
+  TQ.mk' (closeBacks_tf cfg d ts s) (closeBacks_same cfg d ts s)
+
+theorem closeGuarded_t (cfg : Cfg) (d : DST) (ts : Nat) (s : St) :
+    (TInv s → (d.feat.tsEnd.isSome → lastTs s.log ≤ ts ∧ ts ≤ s.p.clock) → TInv (closeGuarded cfg d ts s)) ∧
+    (TInv2 s → (d.feat.tsEnd.isSome → lastTs s.log ≤ ts ∧ ts ≤ s.c.curLastEventTs) →
+      TInv2 (closeGuarded cfg d ts s)) := by
+  unfold closeGuarded
+  simp only
+  have hq : TQ s (closeBacks cfg d ts ((s.setFlag true).setContentSize (s.setFlag true).c.at_)) :=
+    (TQ.mk ⟨Nat.le_refl _, rfl, rfl⟩ (Ext.of_log_eq rfl) : TQ s ((s.setFlag true).setContentSize (s.setFlag true).c.at_)).trans
+      (closeBacks_tq cfg d ts _)
+  constructor
+  · intro hi hts
+    split
+    · exact hi.upd rfl rfl rfl
+    · split
+      · exact hi.upd rfl rfl rfl
+      · unfold closeWrite
+        refine (closeFinish_t d ts _ _).1 (hq.inv hi) (fun hf => ?_)
+        rw [hq.lastTs_eq]
+        exact ⟨(hts hf).1, Nat.le_trans (hts hf).2 hq.fr.clock⟩
+  · intro hi hts
+    split
+    · exact hi.upd rfl rfl rfl
+    · split
+      · exact hi.upd rfl rfl rfl
+      · unfold closeWrite
+        refine (closeFinish_t d ts _ _).2 (hq.inv2 hi) (fun hf => ?_)
+        rw [hq.lastTs_eq, hq.fr.cur]
+        exact hts hf
+
+theorem closePacket_t (cfg : Cfg) (d : DST) (s : St) (hwf : ClockWF d)
+    (hw : (closePacket cfg d s).p.clock < clkW d) :
+    (s.c.useCurLastEventTs = false → TInv s → TInv (closePacket cfg d s)) ∧
+    (s.c.useCurLastEventTs = true → TInv2 s → TInv2 (closePacket cfg d s)) := by
+  unfold closePacket at hw ⊢
+  split
+  · exact ⟨fun _ h => h, fun _ h => h⟩
+  · rename_i hh
+    simp only [hh, if_false] at hw
+    have hb : (preambleTs d d.feat.tsEnd s).2.p.clock < clkW d :=
+      Nat.lt_of_le_of_lt (closeGuarded_tf cfg d _ _).clock hw
+    obtain ⟨pa, pb⟩ := preambleTs_t d d.feat.tsEnd s (fun h => (hwf h).2.1) hb
+    constructor
+    · intro hu hi
+      obtain ⟨h1, h2⟩ := pa hu hi
+      exact (closeGuarded_t cfg d _ _).1 h1 h2
+    · intro hu hi
+      obtain ⟨h1, h2⟩ := pb hu hi
+      exact (closeGuarded_t cfg d _ _).2 h1 h2
+
 end BVM
